@@ -249,7 +249,10 @@ def run(prop, tier, cases, run_case, rule, owner, replay=None, nontrivial=None, 
                 counts["documented-refusal"] = counts.get("documented-refusal", 0) + 1
                 continue
             if kind == "violation":
-                who = "C14" if detail.startswith("exception:") else owner(ev)
+                # C14 states the error discipline: undocumented exception classes, and a documented error that is OWED and not raised
+                # (a constrained variable left unassigned must give ValueError, whatever else is wrong with the behaviour)
+                c14_owned = detail.startswith("exception:") or detail.startswith("unassigned-variable:")
+                who = "C14" if (c14_owned and prop == "C14") or detail.startswith("exception:") else owner(ev)
                 if who != prop:
                     counts["other-property:" + who] = counts.get("other-property:" + who, 0) + 1
                     continue
